@@ -612,7 +612,8 @@ class Folder(object):
             ad = self.db.find_attr(v.ci, attr)
             if ad is None:
                 raise FoldRaise('AttributeError', (attr,), node)
-            return self.attrdef_value(ad, v)
+            val = self.attrdef_value(ad, v)
+            return self._through_descriptor(val, v, ClassVal(v.ci), ad, node)
         if isinstance(v, NTVal):
             if attr in v.ntc.fields:
                 return v.attr(attr)
@@ -656,7 +657,20 @@ class Folder(object):
             if attr == 'register':       # ABCMeta.register
                 return ExtVal('abc.register')
             raise FoldRaise('AttributeError', (attr,), node)
-        return self.attrdef_value(ad, cv)
+        val = self.attrdef_value(ad, cv)
+        return self._through_descriptor(val, None, cv, ad, node)
+
+    def _through_descriptor(self, val, instance, owner, ad, node):
+        """A class attribute that was *assigned* an instance of an in-repo
+        class with __get__ (id = overridable_property(getter)) is read
+        through that __get__, as the interpreter does."""
+        if ad.kind != 'assign' or not isinstance(val, Instance):
+            return val
+        get = self.db.find_method(val.ci, '__get__')
+        if get is None:
+            return val
+        return self.call_func(FuncVal(get, bound=val), [instance, owner], {},
+                              node, Env(get.module))
 
     def attrdef_value(self, ad, receiver, raw=False):
         """Value of a class attribute definition, bound for `receiver`
